@@ -40,3 +40,58 @@ package rendering
 //@ func RenderInteropError
 //@   modifies httpOut
 //@   ensures [400-for-refusals] err == interop.ErrInvalidInvokeID || err == interop.ErrResponseSent ==> rendered(writer, 400)
+
+// ---------------------------------------------------------------------------------------------
+// Event rendering: the service is a monitor over the current renderer; the invoke renderer copies the
+// event payload (cut at the payload limit) into the reused request buffer exactly once per invocation.
+// ---------------------------------------------------------------------------------------------
+
+//@ monitor EventRenderingService s
+//@   lock s.mutex
+//@   protects currentState
+
+//@ modset renderOut = httpOut, gm(bufLen), gm(bufContent), all(InvokeRenderer.metrics)
+
+// trace parsers are assumed to be pure functions of the context
+//@ funcfield InvokeRenderer.tracingHeaderParser
+//@   modifies nothing
+
+//@ func (*EventRenderingService).SetRenderer
+//@   modifies s.currentState
+//@   ensures [set] s.currentState == state
+//@ func (*EventRenderingService).RenderRuntimeEvent
+//@   modifies renderOut
+//@ func (*EventRenderingService).RenderAgentEvent
+//@   modifies renderOut
+
+//@ func (*RestoreRenderer).RenderRuntimeEvent
+//@   modifies httpOut
+//@ func (*RestoreRenderer).RenderAgentEvent
+//@   modifies nothing
+//@ func (*ShutdownRenderer).RenderAgentEvent
+//@   modifies httpOut
+//@ func (*ShutdownRenderer).RenderRuntimeEvent
+//@   modifies nothing
+//@ func (*InvokeRenderer).RenderAgentEvent
+//@   modifies httpOut
+//@ func renderInvokeHeaders
+//@   modifies httpOut
+
+//@ const interop.MaxPayloadSize == 6*1024*1024 + 100
+
+// C01/C14 (request side): a fresh renderer starts from an emptied buffer
+//@ func NewInvokeRenderer
+//@   modifies gm(bufLen, requestBuffer), gm(bufContent, requestBuffer)
+//@   ensures [buffer-reset] gm(bufLen, requestBuffer) == 0
+//@   ensures [wired] r0 != nil && fresh(r0) && r0.invoke == invoke && r0.requestBuffer == requestBuffer
+
+//@ func (*InvokeRenderer).bufferInvokeRequest
+//@   modifies gm(bufLen, s.requestBuffer), gm(bufContent, s.requestBuffer), s.metrics
+//@   ensures [cut-at-limit] old(gm(bufLen, s.requestBuffer)) == 0 && r0 == nil ==> gm(bufContent, s.requestBuffer) == takeContent(readerContent(s.invoke.Payload), interop.MaxPayloadSize) && gm(bufLen, s.requestBuffer) <= interop.MaxPayloadSize
+//@   ensures [whole-if-fits] old(gm(bufLen, s.requestBuffer)) == 0 && r0 == nil && readerLen(s.invoke.Payload) <= interop.MaxPayloadSize ==> gm(bufContent, s.requestBuffer) == readerContent(s.invoke.Payload) && gm(bufLen, s.requestBuffer) == readerLen(s.invoke.Payload)
+//@   ensures [buffered-once] old(gm(bufLen, s.requestBuffer)) != 0 ==> r0 == nil && unchanged(gm(bufLen, s.requestBuffer), gm(bufContent, s.requestBuffer))
+
+//@ func (*InvokeRenderer).RenderRuntimeEvent
+//@   modifies renderOut
+//@   ensures [payload-delivered] s.invoke.Payload != nil && old(gm(bufLen, s.requestBuffer)) == 0 && readerLen(s.invoke.Payload) <= interop.MaxPayloadSize && r0 == nil ==> ghost(httpLastContent) == readerContent(s.invoke.Payload) && ghost(httpLastLen) == readerLen(s.invoke.Payload) && ghost(httpLastWriter) == ref(writer)
+//@   ensures [payload-cut] s.invoke.Payload != nil && old(gm(bufLen, s.requestBuffer)) == 0 && r0 == nil ==> ghost(httpLastContent) == takeContent(readerContent(s.invoke.Payload), interop.MaxPayloadSize) && ghost(httpLastLen) <= interop.MaxPayloadSize
